@@ -100,6 +100,11 @@ def cmd_run(names, tier="quick", all_checks=False):
                 results.append(dict(name=n, status="PATCH-DOES-NOT-APPLY", detail=a.stderr[:200]))
                 print(n, "PATCH-DOES-NOT-APPLY")
                 continue
+            drc, _ = demo(w, os.path.join(d, "demo.py"))
+            if drc != 1:
+                results.append(dict(name=n, property=prop, status="OBSOLETE", detail="its own demonstration no longer fails on /repo HEAD + patch (exit %d): a later fix: commit removed the breakage" % drc))
+                print("%-10s OBSOLETE (demo exits %d with the change applied to the current tree)" % (n, drc))
+                continue
             props = [prop]
             if all_checks:
                 props = [c["property_id"] for c in json.load(open(os.path.join(HERE, "MANIFEST.json")))["checks"]]
@@ -120,7 +125,7 @@ def cmd_run(names, tier="quick", all_checks=False):
             drop(tmp, w)
     os.makedirs(os.path.join(HERE, "out"), exist_ok=True)
     json.dump(results, open(os.path.join(HERE, "out", "seeded_results.json"), "w"), indent=1)
-    missed = [r for r in results if r.get("status") != "detected"]
+    missed = [r for r in results if r.get("status") not in ("detected", "OBSOLETE")]
     print("%d changes, %d detected by their own property's check, %d not" % (len(results), len(results) - len(missed), len(missed)))
 
 
